@@ -307,6 +307,38 @@ pub fn load_known(id: &str) -> Vec<Known> {
 }
 
 // ---------------------------------------------------------------------------------------------
+// library calls: a panic inside the library is a violation of whatever property is being checked
+// (reported with its input), never a machinery failure
+
+thread_local! { pub static LIB_PANIC: std::cell::RefCell<Option<(Value, String)>> = std::cell::RefCell::new(None); }
+
+pub fn site_of(loc: Location) -> Site {
+    Site::new(f64::from(loc.coords.latitude), f64::from(loc.coords.longitude), f64::from(loc.coords.elevation), f64::from(loc.gmt))
+}
+
+/// `prayer_times_dt` with panic attribution
+pub fn pt(p: &Params, loc: Location, date: NaiveDate, w: Option<Weather>) -> R {
+    match std::panic::catch_unwind(std::panic::AssertUnwindSafe(|| prayer_times_dt(p, loc, date, w))) {
+        Ok(r) => r,
+        Err(e) => {
+            let case = PtCase::new(p, site_of(loc), date).with_weather(w.map(|w| (f64::from(w.pressure), f64::from(w.temperature))));
+            LIB_PANIC.with(|l| *l.borrow_mut() = Some((case.to_value(), crate::c07::take_panic_msg())));
+            std::panic::resume_unwind(e)
+        }
+    }
+}
+/// any other library call with panic attribution; `case` is only evaluated on a panic
+pub fn lib<T>(case: impl FnOnce() -> Value, f: impl FnOnce() -> T) -> T {
+    match std::panic::catch_unwind(std::panic::AssertUnwindSafe(f)) {
+        Ok(r) => r,
+        Err(e) => {
+            LIB_PANIC.with(|l| *l.borrow_mut() = Some((case(), crate::c07::take_panic_msg())));
+            std::panic::resume_unwind(e)
+        }
+    }
+}
+
+// ---------------------------------------------------------------------------------------------
 // parallel job runner
 
 /// Run `f(job, &mut Local)` for every job on `threads` OS threads (work stealing by atomic index).
@@ -321,7 +353,16 @@ pub fn par_jobs<J: Sync, F: Fn(&J, &mut Local) + Sync>(ctx: &Ctx, jobs: &[J], f:
                     break;
                 }
                 let mut l = Local::default();
-                f(&jobs[i], &mut l);
+                let r = std::panic::catch_unwind(std::panic::AssertUnwindSafe(|| f(&jobs[i], &mut l)));
+                if let Err(e) = r {
+                    match LIB_PANIC.with(|p| p.borrow_mut().take()) {
+                        Some((case, msg)) => {
+                            // the library panicked: a violation with its input; the rest of this job is skipped
+                            ctx.violation("library_panic", &case.to_string(), case, json!({"panic": msg, "note": "the remaining cases of this job were skipped"}));
+                        }
+                        None => std::panic::resume_unwind(e), // harness bug: machinery failure
+                    }
+                }
                 ctx.merge(l);
             });
         }
